@@ -40,7 +40,8 @@ _reg("C19", engine="pbc", level="exploration",
      level_text=("Sampled, not exhaustive: seeded trajectories (walks, lattice jumps, near-half-box placements) of two residues "
                  "under orthorhombic and triclinic boxes; every step is compared with an independent brute-force minimum over "
                  "periodic images plus symmetry / lattice-shift / inverse-flag relations.  Exploration is the honest level for a "
-                 "continuous input space."),
+                 "continuous input space.  The box is also handed over as nested lists, an integer array, a Fortran-ordered array "
+                 "or a strided view (and must not be modified); near-periodic-image placements (lattice shift + 1e-7..3e-3 nm)."),
      level_note=("Pure function of (two points, a matrix): the simulator contributes seeded generation, minimisation and replay "
                  "and nothing else (DESIGN.md sec. 7).  Trusted: numpy linear algebra in the oracle; tolerance 1e-9 relative to "
                  "the coordinate/box scale."),
@@ -62,7 +63,8 @@ _reg("C13", engine="grofile", level="exploration",
      level_text=("Sampled writer sessions: the order in which title / box / position format / atom count are configured, "
                  "writeline vs writelines vs several chunks of either, numbers as Python or numpy scalars, with-block vs close, declared vs back-filled count, 1..300 records with numbers around "
                  "the five-digit limit and coordinates on rounding boundaries.  The disk image reconstructed from the file "
-                 "seam's operation log is compared with the session by GroFile itself and by an independent parser."),
+                 "seam's operation log is compared with the session by GroFile itself and by an independent parser.  Titles include "
+                 "blank-only, blank-padded and multi-byte ones; records may be pre-formatted strings."),
      level_note=("Trusted: the 25-line independent parser, Python float formatting.  Names are ASCII, non-blank, contain a "
                  "letter; values fit their field after rounding (as the property states).  No disk faults are injected here "
                  "(they belong to C14)."),
@@ -80,7 +82,8 @@ _reg("C14", engine="grofile", level="fault_enumeration",
                  "before close, between the seek / count back-fill / seek / box / newline steps of close), every torn prefix "
                  "of the header, count back-fill and box writes and of a sample of record writes, and every byte-level "
                  "truncation of the complete file (files <= 8 KiB; larger and shipped files: all line boundaries +-3 plus a random "
-                 "sample).  Sessions themselves are sampled."),
+                 "sample).  Sessions themselves are sampled.  Every image the path-based reader refuses is also offered as an "
+                 "already opened file; every accepted image is read through readlines(), iteration and next()."),
      level_note=("Oracle: an image that ends at or before the first byte of the complete file's box line must make GroFile(path) "
                  "raise; an accepted image must return exactly the complete file's records through readlines(), iteration and next() alike.  Any "
                  "exception type counts as rejection.  Names contain a letter that cannot occur in a float literal (a purely "
@@ -104,7 +107,7 @@ _reg("C15", engine="topo", level="exploration",
      level_note=("Trusted: the harness' own model of what the generated lines mean (truth_from_ops) and union-find.  Preprocessor "
                  "lines start in column 0; atom numbers are unique; no section header carries a trailing comment."),
      rule=("one run = one generated topology; non-trivial = it loaded; distinct = distinct (load outcome, connectivity answer, "
-           "copy outcome) x file shape signatures"),
+           "copy outcome) x file shape signatures; chain sizes also around the interpreter's stack budget (61..999)"),
      components={"ItpFile/ItpSection/ItpLine*": REAL, "read_topology": REAL, "MoleculeTop/AtomTop": REAL, "are_connected": REAL,
                  "disk": "tmpfs file behind the file seam"},
      schedule_dimension="none for the parse itself; resource knob: interpreter recursion budget",
@@ -118,7 +121,8 @@ _reg("C16", engine="topo", level="exploration",
                  "commented-out preprocessor lines, blank and preprocessor lines and header text.  What the library wrote is "
                  "taken from the file seam's operation log and compared with its input section by section (content tokens, "
                  "comment and preprocessor lines and their relative positions), then B against C for stability.  The object "
-                 "written is the one read from a path, one read from an open file, or its copy() (before either write)."),
+                 "written is the one read from a path, one read from an open file, or its copy() (before either write); an in-place "
+                 "update (a same-length variant written over the path A was read from, read again) closes the history."),
      level_note=("Trusted: the independent classifier (30 lines).  Not compared: blank lines, whitespace inside comments, an empty "
                  "comment (';' alone).  Section headers carry no trailing comment; no section is called 'header'."),
      rule=("one run = one five-step history; non-trivial = all five steps ran; distinct = distinct sets of line kinds present x "
@@ -132,7 +136,13 @@ _reg("C16", engine="topo", level="exploration",
 _XMAP_NOTE = ("Trusted: the 40-line frame model (sim/models.py) and numpy.  Generic anchors make an angle >= 2e-3 rad with their frame "
               "neighbours, collinear ones are exactly or numerically (after a float rigid motion) collinear; angles in between are "
               "not generated (ill-conditioned, no implementation can meet 1e-8 there).  Nearest-anchor ties within 1e-12 nm are "
-              "accepted either way.  Reference and target have the same number of residues.")
+              "accepted either way.  Reference and target have the same number of residues.  Maps are built directly or through "
+              "Alignment.init_exchange_map (optionally after nudging the live end molecule and initialising again with the same "
+              "scale); the scale is a float, a Python int or a numpy scalar; targets may repeat one residue name on neighbouring "
+              "residues and arguments may carry one residue number throughout; histories may edit the topology (a bond added, a "
+              "new map built on it), re-offer rejected objects, repeat an argument with a 1e-9..1e-4 nm jitter, and use "
+              "conformations in which one anchor has become exactly collinear; rigid-motion equivariance is also checked between a "
+              "deformed conformation D and R D + t; frames handed out earlier are re-compared at the end of the run.")
 
 _reg("C01", engine="xmap", level="exploration",
      runs={"quick": 3200, "thorough": 80000}, block=16,
@@ -227,7 +237,10 @@ _reg("C06", engine="mc", level="exploration",
                  "names/order, finiteness, caller's molecules bit-identical, repeatability.  About 6 % of the runs use a "
                  "DEGENERATE mobile molecule (a hub atom whose bonded neighbours are exactly collinear, dyadic coordinates): the "
                  "random single-atom displacement of the hub is then 0/0, the proposal non-finite, and it must never become the "
-                 "held configuration; the monitors of C07-C09 stand down for those proposals, the end-state oracles stay."),
+                 "held configuration; the monitors of C07-C09 stand down for those proposals, the end-state oracles stay.  A fifth of "
+                 "the runs re-assigns another conformation of the mobile molecule on the SAME Alignment and aligns again (oracles on "
+                 "the second alignment); some runs sit 3000 / 7000 nm from the origin; the axis site of the override script also "
+                 "injects directions of almost unit length."),
      level_note=_MC_NOTE,
      rule=_MC_RULE,
      components={"Alignment.align_molecules": REAL, "_backend._minimize_molecules (python engine)": REAL,
@@ -251,7 +264,9 @@ _reg("C07", level="exploration",
                  "geometry or are off by +-30 %; further runs use random trees and cyclic graphs up to 60 atoms with explicit and "
                  "random (seam-drawn) displacements; for cyclic graphs the exactly restored bonds must reach every atom from the "
                  "moved one (traversal-agnostic).  The same tree and moved atom are also moved again with ANOTHER bond table (the "
-                 "species in another conformation) inside one run, and positions / displacement are also given as plain lists."),
+                 "species in another conformation) inside one run, positions / displacement are also given as plain lists, a "
+                 "displacement may be requested for a randomly chosen atom, refused calls (broken bond tables) are made between "
+                 "valid ones, and arrays returned earlier are re-compared at the end."),
      level_note=_MC_NOTE + "  The directed half is a pure function of its input: the harness contributes enumeration / seeded generation and replay only.",
      rule=_MC_RULE + "; directed runs: one batch of 12 enumerated trees (all moved atoms) or one random graph with 8 moves",
      components={"Alignment.align_molecules": REAL, "_backend._minimize_molecules (python engine)": REAL,
@@ -273,7 +288,8 @@ _reg("C08", level="exploration",
                  "fixed-atom / duplicated-pair / every-fixed-atom restraint lists are built once and evaluated on 10 unrelated "
                  "configurations each (incl. mobile atoms exactly on fixed atoms), against a pure-python double loop, plus invariance "
                  "under a common rigid motion and under a consistent relabelling of atoms and restraints.  The fixed array is also "
-                 "handed over with integer or float32 dtype (exactly representable values)."),
+                 "handed over with integer or float32 dtype (exactly representable values), ONE mobile buffer is modified in place "
+                 "between evaluations in a third of the batches, and some batches place both sets 1e2.5..1e4 from the origin."),
      level_note=_MC_NOTE + "  Evaluations where two mobile atoms are equidistant (1e-9) from a fixed atom are skipped (penalty exponent undefined).",
      rule=_MC_RULE,
      components={"Alignment.align_molecules": REAL, "_backend._minimize_molecules (python engine)": REAL,
@@ -296,7 +312,9 @@ _reg("C09", engine="mc", level="exploration",
                  "drawn iff the counter is below the budget (an extra draw raises inside the seam), the returned array is the held "
                  "one bitwise; and the two energies compared at every step equal the reference definition of the measure "
                  "(C08) for the held configuration and for the proposal as they are then (a calculator that drifts is a C09 "
-                 "violation too)."),
+                 "violation too).  Direct drives of the optimiser entry point also use a mobile set in two bonded pieces with every "
+                 "restraint on one piece (moves in the other piece tie the measure exactly: 'equal is always accepted'), and "
+                 "molecules expressed in other length units (coordinates x 1e-6, 1e-4, 1e3)."),
      level_note=_MC_NOTE + "  If the loop stops using the module-level names the seams watch, the run is counted as unobservable (probe) instead of judged.",
      rule=_MC_RULE,
      components={"Alignment.align_molecules": REAL, "_backend._minimize_molecules (python engine)": REAL,
@@ -305,7 +323,8 @@ _reg("C09", engine="mc", level="exploration",
                  "cython backend": "not installed; the pure-python engine is what runs",
                  "Molecule/MoleculeTop": REAL + " (MoleculeTop built without a file)"},
      schedule_dimension="the random stream (seed + override script): move types, magnitudes, acceptance draws",
-     probes=["accepted_worse_proposal", "accepted_without_new_minimum", "new_minimum", "rejected_proposal"])
+     probes=["accepted_worse_proposal", "accepted_without_new_minimum", "new_minimum", "rejected_proposal",
+             "equal_measure_other_configuration", "two_piece_mobile_direct", "other_length_units"])
 
 _reg("C17", level="exploration",
      parts=[{"engine": "xmap", "runs": {"quick": 1600, "thorough": 30000}, "block": 16},
@@ -336,13 +355,16 @@ _reg("C12", engine="grosys", level="exploration",
                  "records that merge; with/without velocities; rectangular/triclinic box) and sampled schedules of up to 200 steps "
                  "over 1..4 live iterators on the SAME SystemGro interleaved with indexed (any sign, out of range), sliced (all sign "
                  "combinations, steps +-1..3) and whole-file accesses.  Every residue handed out must equal the file's records "
-                 "whatever was read before."),
+                 "whatever was read before.  Files may have DOS line ends; the path may have held (and been loaded as) another "
+                 "system of the same atom count before; `for residue in SystemGro(path)` on a temporary view with a garbage "
+                 "collection in the middle."),
      level_note=("Trusted: the independent fixed-width parser.  Residue names start with a letter (a leading digit makes the "
                  "library's residue identifier 'number+name' ambiguous; the property is not tested there)."),
      rule=("one run = one file + one access schedule; non-trivial = the file loaded; distinct = distinct sequences of (operation, outcome)"),
      components={"SystemGro": REAL, "GroFile reader (seek_atom / next)": REAL, "file": "real tmpfs file; the shared cursor is the library's own"},
      schedule_dimension="which consumer of the shared file handle steps next",
-     probes=["two_live_iterators_mid_file", "negative_step_slice", "equal_name_different_size_adjacent"])
+     probes=["two_live_iterators_mid_file", "negative_step_slice", "equal_name_different_size_adjacent", "dos_line_ends",
+             "path_held_another_file_before", "iterated_a_temporary_view"])
 
 
 _reg("C18", engine="alias", level="exploration",
@@ -357,7 +379,8 @@ _reg("C18", engine="alias", level="exploration",
                  "centre displacement and distance preservation for rigid operations.  How often the harness LOOKS is itself scheduled "
                  "(after every 1 / 2 / 4 operations or only at the end): constant reading would keep any read-refreshed cache of "
                  "the library warm.  Re-centring also along one or two axes only (target sharing components exactly with the "
-                 "current centre), axis-parallel moves, list / tuple arguments."),
+                 "current centre), axis-parallel moves, list / tuple arguments, per-residue name lists, one residue of 260-330 atoms "
+                 "in one run of fifty."),
      level_note=("Trusted: the cell model (engines/alias.py).  Names / residue names are only changed on molecules whose topology the "
                  "model says is unshared (deep copies, fresh molecules): shallow copies share their topology by documented design and "
                  "the property claims name isolation for deep copies only.  Arrays given to setters are fresh (no caller-side aliasing)."),
@@ -377,14 +400,17 @@ _reg("C11", engine="system", level="exploration",
                  "interspersed.  The schedule is the order of topology loads (constructor arguments, add_ftop by path / open file, "
                  "add_molecule_top), any subset, with len / composition / every index incl. negative / slices / iteration executed "
                  "between loads, and failing loads (species absent from the file, unrelated shipped topology, duplicate load, same "
-                 "signature with other atom names) injected anywhere: they must raise and leave every observer unchanged."),
+                 "signature with other atom names) injected anywhere: they must raise and leave every observer unchanged.  Whether "
+                 "the harness looks right after a load is scheduled; live System iterators are stepped between other accesses; "
+                 "neighbouring residues of different kinds may share a residue number; a few systems have 1000-2000 residues or "
+                 "start with a solvent prefix of 2^k +- 2 residues."),
      level_note=("Residue kinds have pairwise distinct (name, atom count) signatures and no kind belongs to two species (how "
                  "'distinct residue signatures' is read).  Which exception an out-of-range index raises is not checked.  Trusted: "
                  "the generator's record of what it wrote."),
      rule="one run = one file + one load/observe schedule; non-trivial = schedule ran to the end; distinct = distinct (operation, outcome) sequences",
      components={"System / SystemGro": REAL, "MoleculeTop / read_topology / ItpFile": REAL, "Molecule": REAL, "files": "real files on tmpfs"},
      schedule_dimension="order of topology loads, position of observers and of failing loads",
-     probes=["second_or_later_load"])
+     probes=["second_or_later_load", "load_not_observed_at_once", "live_iterator_stepped_between_accesses"])
 
 
 _reg("C10", engine="routing", level="exploration",
@@ -398,7 +424,9 @@ _reg("C10", engine="routing", level="exploration",
                  "from real files: per-species restraints / deformation types / hydrogen flags must reach exactly that species' "
                  "Alignment object; unknown names, species without an end molecule and malformed values must raise before the first "
                  "alignment call.  Restrictions handed over as already parsed (parse_restrictions=False) also come in another "
-                 "key order than the manager's and for a subset of the species."),
+                 "key order than the manager's and for a subset of the species; unknown names include fragments of known ones "
+                 "(prefix, suffix, empty, separator); a quarter of the alignment-level runs re-uses an Alignment object that has "
+                 "already aligned another pair (emptied through None)."),
      level_note=("Stubs replace minimize_molecules (level 1) and Alignment.align_molecules (level 3) because the property is about "
                  "what reaches them; everything before them is real code.  A one-atom end molecule is not generated at level 1 "
                  "(the alignment returns before the optimiser).  The guesser part is plain enumeration of a pure function."),
@@ -423,7 +451,9 @@ _reg("C05", engine="pipeline", level="exploration",
                  "1.., title, box (5e-6), input residue numbers, coordinates = species' map(input molecule) to the format precision "
                  "(C02's invariants for 1-/2-atom references), byte-identical repetition.  After every calculate_exchange_maps(s) the map of each attached species (reference >= 3 atoms) is applied "
                  "to the alignment's own start molecule and must give anchor + s (end atom - anchor): the requested scale "
-                 "really is the scale of the map."),
+                 "really is the scale of the map.  Systems are also populated one MoleculeTop at a time in shuffled order; the live "
+                 "end molecule may be nudged and the maps rebuilt with the same scale; residue numbers may be shared by neighbours "
+                 "of different species and may end exactly at 99999; titles may end in blanks."),
      level_note=("Trusted: the 15-line output parser; the expected coordinates come from calling the species' own exchange map "
                  "(C04 decides that this call is history-independent; the scale-law clause ties that map to the requested scale).  End molecules carry no velocities.  Systems stay below "
                  "99 999 atoms."),
@@ -452,7 +482,9 @@ _reg("C20", engine="cli", level="exploration",
                  "species absent from the system, the system file itself, a start-resolution coordinate file): sort_molecules must "
                  "return exactly the complete species' three files for every order, never re-add explicit species, and main must "
                  "map exactly the complete, non-excluded ones, and its output must equal, byte for byte, the library workflow fed "
-                 "with the explicit triples followed by the discovered ones in the order the tool reports.  The first runs execute the unmodified CLI in real subprocesses "
+                 "with the explicit triples followed by the discovered ones in the order the tool reports.  Candidate lists also "
+                 "contain a near-miss topology (same residue signature, other atom names), file names with several dots, "
+                 "explicit files listed again under another spelling, and topologies in six legal header layouts.  The first runs execute the unmodified CLI in real subprocesses "
                  "under different PYTHONHASHSEED values with shuffled --auto lists."),
      level_note=("No duplicate topologies of one molecule name and no malformed files are generated (the statement's 'its files' is "
                  "then undefined).  STEPS_FACTOR is lowered to 1..2 (class attribute) in both workflows alike.  Outputs of two "
